@@ -162,3 +162,39 @@ def trace_check(ctx, cases, tag, shard=30, par=8):
 
 def splits_of(d):
     return set(open(os.path.join(d, "splits.txt")).read().split())
+
+
+PIPE_FILES = ["stage.go", "pipe.go", "pipe_faults.go"]
+
+
+def scenario(ctx, kind, args, timeout=400):
+    """Run one crash/fault scenario driver (vh c05 crashrun / vh c06 faultrun)."""
+    p = ctx.vh_run([kind[0], kind[1]] + [str(a) for a in args], timeout=timeout)
+    out = p.stdout.decode().strip().splitlines()
+    try:
+        return json.loads(out[-1])
+    except (IndexError, ValueError):
+        return {"incarnations": [], "outs": "", "driver_error": (p.stdout + p.stderr).decode()[-800:]}
+
+
+def clean_jobs(d, psid="ps0"):
+    """Job ids (in start order), stage and phase of each, from a clean run's event log."""
+    jobs = []
+    for line in open(os.path.join(d, psid + ".events")):
+        f = line.split()
+        if len(f) >= 5 and f[1] == "start":
+            jobs.append((f[2], f[3], f[4]))
+    return jobs
+
+
+def clean_outs(d, psid="ps0"):
+    for line in open(os.path.join(d, psid + ".obs")):
+        if line.startswith("outs "):
+            return line.split()[1]
+    return ""
+
+
+def parallel(fn, items, par=8):
+    from concurrent.futures import ThreadPoolExecutor
+    with ThreadPoolExecutor(max_workers=par) as ex:
+        return list(ex.map(fn, items))
